@@ -115,7 +115,9 @@ func gen(r *verifsim.Rng, tier string) (any, hx.Sched) {
 		// (registration at parse time), and through script builtins executed on the shared VM
 		"pclass", "piface", "pfunc", "sdefine", "sgetconst", "sclassexists", "sfuncexists", "sifaceexists",
 		// a script requires a file (require_once) and uses what the file declares straight away
-		"srequire", "srequire"}
+		"srequire", "srequire",
+		// a script's top-level variables are registered as globals in one call (a file with many of them)
+		"regglobals"}
 	// swarm: disable a random subset of kinds
 	var enabled []string
 	for _, k := range kinds {
@@ -140,6 +142,12 @@ func gen(r *verifsim.Rng, tier string) (any, hx.Sched) {
 			}
 			if k == "srequire" {
 				name = verifsim.Pick(r, []string{"Ra", "Rb"})
+			}
+			if k == "regglobals" {
+				name = verifsim.Pick(r, []string{"8", "40", "40", "200"}) // how many variables the "file" has
+			}
+			if k == "global" && r.Intn(2) == 0 {
+				name = fmt.Sprintf("gv%d", r.Intn(6)) // one of the names such a file declares
 			}
 			ops = append(ops, Op{k, name})
 		}
@@ -469,6 +477,16 @@ func exec(t *testing.T, x any, s hx.Sched) *hx.Outcome {
 					case "global":
 						zv := vm.EnsureGlobalZVal(op.N)
 						ret = fmt.Sprintf("ptr:%p", zv)
+					case "regglobals":
+						n := 0
+						fmt.Sscan(op.N, &n)
+						vars := make([]data.Variable, n)
+						for j := range vars {
+							vars[j] = node.NewVariable(nil, fmt.Sprintf("gv%d", j), j, nil)
+						}
+						gctx := vm.CreateContext(vars)
+						vm.RegisterGlobalContext(vars, gctx)
+						ret = "ok"
 					case "setfile":
 						vm.SetPhpFileCache("/fx/" + op.N + ".php")
 						ret = "ok"
